@@ -5,6 +5,7 @@ pub mod histcommon;
 pub mod c01;
 pub mod c02;
 pub mod c03;
+pub mod c04;
 pub mod c06;
 pub mod c15;
 pub mod c17;
@@ -22,6 +23,7 @@ pub fn run(id: &str, tier: Tier) -> Option<Outcome> {
         "C01" => c01::run(tier),
         "C02" => c02::run(tier),
         "C03" => c03::run(tier),
+        "C04" => c04::run(tier),
         "C06" => c06::run(tier),
         "C15" => c15::run(tier),
         "C17" => c17::run(tier),
@@ -37,6 +39,7 @@ pub fn replay(id: &str, replay: &serde_json::Value) -> Option<Vec<crate::mc::Vio
         "C02" => Some(histcommon::replay_hist(&c02::model(Tier::Quick, replay["world"].as_str().unwrap_or("")), replay)),
         "C06" if replay["model"] == "C06" => Some(histcommon::replay_hist(&c06::model(Tier::Quick, replay["world"].as_str().unwrap_or("")), replay)),
         "C03" => Some(histcommon::replay_hist(&c03::model_for(replay), replay)),
+        "C04" => Some(c04::replay(replay)),
         "C15" => Some(c15::replay(replay)),
         "C17" => Some(histcommon::replay_hist(&c17::model(Tier::Thorough, replay["world"].as_str().unwrap_or("")), replay)),
         _ => None,
